@@ -442,40 +442,62 @@ theorem asm_callback_entry_idle (a : ASM) (op : AsmOp) (g : GenStep) (evs : List
 
 example : (({ reader := true, result := some 0 } : ASM).step .inRead (.yld 7)) = (ASM.clear, .ok [.outRead]) := by decide
 
-/-- inReadEvent with the read-ahead drain loop of its implicit-read branch (`pend` = what each
-    extra `readAsync(16384)` does while `_read_ahead_pending()` holds):
-    * with nothing read ahead it is the plain transition (`asm_single_active_op` applies);
+/-- `_doReadOp` drains the read-ahead buffer whenever a read completes, in whichever event
+    (`pend` = what each extra `readAsync(16384)` does while `_read_ahead_pending()` holds):
+    * with nothing read ahead inReadEvent / inWriteEvent are the plain transitions
+      (`asm_single_active_op` applies);
     * for every `pend` the outcome keeps the invariant: a raise leaves the cleared state, a success
       leaves at most one operation active (an incomplete buffered record leaves the reader waiting);
-    * everything complete in the read-ahead buffer is delivered before inReadEvent returns: if the
-      first read and all n extra reads complete, n+1 outReadEvents are emitted and the machine ends
-      idle.  (A callback that starts another operation makes `_read_ahead_pending()` false: the
-      loop's `noOp` test.) -/
+    * everything complete in the read-ahead buffer is delivered before the event returns: if the
+      read and all n extra reads complete, n+1 outReadEvents are emitted and the machine ends idle —
+      also when the read had been started by an earlier event and only completes now.
+      (A callback that starts another operation makes `_read_ahead_pending()` false: `noOp`.) -/
 theorem asm_read_ahead_drained (a : ASM) (g : GenStep) (pend : List GenStep) :
-    a.inReadDrain g [] = a.inReadEvent g ∧
+    a.inReadDrain g [] = a.inReadEvent g ∧ a.inWriteDrain g [] = a.inWriteEvent g ∧
     ((a.inReadDrain g pend).2 = .assertionError ∨ (a.inReadDrain g pend).2 = .raised →
         (a.inReadDrain g pend).1 = ASM.clear) ∧
     (∀ evs, (a.inReadDrain g pend).2 = .ok evs → (a.inReadDrain g pend).1.activeOps ≤ 1) ∧
-    (∀ (v : Nat) (vs : List Nat), (v ≠ 0 ∧ v ≠ 1) → (∀ x ∈ vs, x ≠ 0 ∧ x ≠ 1) →
+    ((a.inWriteDrain g pend).2 = .assertionError ∨ (a.inWriteDrain g pend).2 = .raised →
+        (a.inWriteDrain g pend).1 = ASM.clear) ∧
+    (∀ evs, (a.inWriteDrain g pend).2 = .ok evs → (a.inWriteDrain g pend).1.activeOps ≤ 1) ∧
+    (∀ (v : Nat) (vs : List Nat) (r : Nat), (v ≠ 0 ∧ v ≠ 1) → (∀ x ∈ vs, x ≠ 0 ∧ x ≠ 1) → (r = 0 ∨ r = 1) →
         ASM.clear.inReadDrain (.yld v) (vs.map GenStep.yld) =
+          (ASM.clear, .ok (List.replicate (vs.length + 1) AsmEv.outRead)) ∧
+        ({ reader := true, result := some r } : ASM).inReadDrain (.yld v) (vs.map GenStep.yld) =
+          (ASM.clear, .ok (List.replicate (vs.length + 1) AsmEv.outRead)) ∧
+        ({ reader := true, result := some r } : ASM).inWriteDrain (.yld v) (vs.map GenStep.yld) =
           (ASM.clear, .ok (List.replicate (vs.length + 1) AsmEv.outRead))) := by
-  refine ⟨inReadDrain_nil a g, (asm_drain_spec a g pend).1, (asm_drain_spec a g pend).2, ?_⟩
-  intro v vs hv hvs
+  refine ⟨inReadDrain_nil a g, inWriteDrain_nil a g, (asm_drain_spec a g pend).1, (asm_drain_spec a g pend).2,
+    (asm_wdrain_spec a g pend).1, (asm_wdrain_spec a g pend).2, ?_⟩
+  intro v vs r hv hvs hr
   have hne : ¬ (v = 0 ∨ v = 1) := by omega
-  have h0 : (({ reader := true, result := ASM.clear.result } : ASM).doReadOp (.yld v)) =
-      (ASM.clear, .ok [AsmEv.outRead]) := by
-    simp [ASM.doReadOp, ASM.clear, hne]
-  have := drainLoop_all_complete vs [AsmEv.outRead] hvs
-  simp only [ASM.inReadDrain, ASM.guard]
-  have hc : ASM.clear.checkAssert = true := by decide
-  simp only [hc, Bool.not_true, Bool.false_eq_true, if_false]
-  have hf : ASM.clear.handshaker = false ∧ ASM.clear.closer = false ∧ ASM.clear.reader = false ∧ ASM.clear.writer = false := by
-    decide
-  simp only [hf.1, hf.2.1, hf.2.2.1, hf.2.2.2, Bool.false_eq_true, if_false, h0, this]
-  simp [List.replicate_succ]
+  have h0 : ∀ res, (({ reader := true, result := res } : ASM).doReadOp (.yld v)) = (ASM.clear, .ok [AsmEv.outRead]) := by
+    intro res; simp [ASM.doReadOp, ASM.clear, hne]
+  have hd := drainLoop_all_complete vs [AsmEv.outRead] hvs
+  have hfin : (ASM.guard (ASM.clear, AsmRes.ok ([AsmEv.outRead] ++ List.replicate vs.length AsmEv.outRead))) =
+      (ASM.clear, .ok (List.replicate (vs.length + 1) AsmEv.outRead)) := by
+    simp [ASM.guard, List.replicate_succ]
+  refine ⟨?_, ?_, ?_⟩
+  · have hc : ASM.clear.checkAssert = true := by decide
+    simp only [ASM.inReadDrain, ASM.doReadOpD, hc, Bool.not_true, Bool.false_eq_true, if_false]
+    have hf : ASM.clear.handshaker = false ∧ ASM.clear.closer = false ∧ ASM.clear.reader = false ∧ ASM.clear.writer = false := by
+      decide
+    simp only [hf.1, hf.2.1, hf.2.2.1, hf.2.2.2, Bool.false_eq_true, if_false]
+    rw [h0, hd, hfin]
+  · have hc : ({ reader := true, result := some r } : ASM).checkAssert = true := by
+      rcases hr with rfl | rfl <;> decide
+    simp only [ASM.inReadDrain, ASM.doReadOpD, hc, Bool.not_true, Bool.false_eq_true, if_false, if_true]
+    rw [h0, hd, hfin]
+  · have hc : ({ reader := true, result := some r } : ASM).checkAssert = true := by
+      rcases hr with rfl | rfl <;> decide
+    simp only [ASM.inWriteDrain, ASM.doReadOpD, hc, Bool.not_true, Bool.false_eq_true, if_false, if_true]
+    rw [h0, hd, hfin]
 
 example : ASM.clear.inReadDrain (.yld 7) [.yld 8, .yld 0, .yld 9] =
-    ({ reader := true, result := some 0 }, .ok [.outRead, .outRead]) := by decide
+      ({ reader := true, result := some 0 }, .ok [.outRead, .outRead]) ∧
+    -- a read started earlier (it had yielded 0) completes in this event: the read-ahead is drained too
+    ({ reader := true, result := some 0 } : ASM).inReadDrain (.yld 7) [.yld 8] = (ASM.clear, .ok [.outRead, .outRead]) := by
+  decide
 
 /-- over whole histories: from the initial state, after any sequence of transitions with
     protocol-obeying generators, `_checkAssert()` holds -/
